@@ -39,6 +39,10 @@ pub struct ModSpec {
     /// a joined task is still pending at the end (run() reports NotFinished)
     #[serde(default)]
     pub pending_join: bool,
+    /// (n, d): the handler shuts the module down while it handles the n-th message that reaches it and asks for a restart
+    /// d * 2 ms + 500 us later (ignored together with `pending_join`)
+    #[serde(default)]
+    pub restart: Option<(u8, u8)>,
 }
 
 #[derive(Clone, Debug, Serialize, Deserialize)]
@@ -103,6 +107,10 @@ struct M {
     stages: usize,
     wakes: Vec<u128>,
     handler_sends: bool,
+    /// (n-th handled message, restart delay in ns)
+    restart: Option<(usize, u128)>,
+    seen: usize,
+    restarted: bool,
 }
 
 impl Module for M {
@@ -121,6 +129,10 @@ impl Module for M {
     }
     fn at_sim_start(&mut self, stage: usize) {
         net::log("h-start", stage as i64, 0);
+        if self.restarted {
+            // second incarnation: the stages are replayed, the tasks are not started again
+            return;
+        }
         if stage == 0 && self.pending_join {
             current().join(tokio::spawn(std::future::pending::<()>()));
         }
@@ -140,6 +152,14 @@ impl Module for M {
         if self.handler_sends {
             net::log("send", id as i64 + 3000, 0);
             send(Message::default().id(id + 3000), "out");
+        }
+        self.seen += 1;
+        if let Some((n, delay)) = self.restart {
+            if self.seen == n && !self.restarted {
+                self.restarted = true;
+                let at = SimTime::now().as_nanos() + delay;
+                current().shutdow_and_restart_at(st(at));
+            }
         }
     }
     fn at_sim_end(&mut self) -> Result<(), RuntimeError> {
@@ -165,6 +185,13 @@ fn rec(path: &str, kind: &str, a: i64, b: i64, now: u128) -> Rec {
         now,
         a,
         b,
+    }
+}
+
+fn restart_of(m: &ModSpec) -> Option<(usize, u128)> {
+    match m.restart {
+        Some((n, d)) if !m.pending_join => Some((n as usize % 4 + 1, d as u128 * 2_000_000 + 500_000)),
+        _ => None,
     }
 }
 
@@ -204,6 +231,9 @@ pub fn run_case(case: &Case) -> Result<(bool, Vec<&'static str>), Failure> {
                 stages: (m.stages % 3) as usize,
                 wakes,
                 handler_sends: m.handler_sends,
+                restart: restart_of(m),
+                seen: 0,
+                restarted: false,
             },
         );
     }
@@ -275,6 +305,7 @@ pub fn run_case(case: &Case) -> Result<(bool, Vec<&'static str>), Failure> {
                 }
             }
         }
+        let handled = matches!((msg, cur), (Some(_), Some(_)));
         match (msg, cur, handler) {
             (Some(_), Some(id), _) => {
                 want.push(rec(p, "h-msg", id as i64, 0, now));
@@ -293,6 +324,7 @@ pub fn run_case(case: &Case) -> Result<(bool, Vec<&'static str>), Failure> {
                 sink.push(id as i64 + 2000);
             }
         }
+        handled
     };
     let max_stage = mods.iter().map(|m| (m.stages % 3) as usize).max().unwrap_or(0).max(1);
     for stage in 0..max_stage {
@@ -303,15 +335,67 @@ pub fn run_case(case: &Case) -> Result<(bool, Vec<&'static str>), Failure> {
         }
     }
     let mut last = 0;
-    for (t, i, msg, ord) in &timeline {
+    // per module: messages that reached the handler, restart instant while the module is down, shut down once
+    let mut seen = vec![0usize; mods.len()];
+    let mut down_until: Vec<Option<u128>> = vec![None; mods.len()];
+    let mut was_down = vec![false; mods.len()];
+    let mut stale_done = vec![false; mods.len()];
+    let mut restart_stage_events = 0;
+    let mut ignored_while_down = 0;
+    // ranges of `want` that may be absent: the timer of the first incarnation's task that was pending at the shutdown is
+    // still delivered to the restarted module as an empty (handler-less) event; whether such a stale wake-up is
+    // delivered at all is not this property's business, but if it is, it has to be bracketed like any other event
+    let mut optional: Vec<(usize, usize)> = Vec::new();
+    let mut k = 0;
+    loop {
+        // the next event is the earlier of the next timeline entry and the earliest pending restart
+        let next_restart = (0..mods.len()).filter_map(|i| down_until[i].map(|r| (r, i))).min();
+        let entry = timeline.get(k);
+        let restart_first = match (next_restart, entry) {
+            (Some((r, _)), Some((t, ..))) => r < *t,
+            (Some(_), None) => true,
+            (None, Some(_)) => false,
+            (None, None) => break,
+        };
+        if restart_first {
+            let (r, i) = next_restart.expect("restart");
+            down_until[i] = None;
+            last = r;
+            for stage in 0..(mods[i].stages % 3) as usize {
+                restart_stage_events += 1;
+                bracket(i, r, None, Some(("h-start", stage as i64)), &mut want, &mut want_sink, &mut consumed_early);
+            }
+            continue;
+        }
+        let (t, i, msg, ord) = entry.expect("entry");
+        k += 1;
         last = *t;
         match msg {
-            Some(id) => bracket(*i, *t, Some(*id), None, &mut want, &mut want_sink, &mut consumed_early),
+            Some(_) if down_until[*i].is_some() => ignored_while_down += 1,
+            Some(id) => {
+                if bracket(*i, *t, Some(*id), None, &mut want, &mut want_sink, &mut consumed_early) {
+                    seen[*i] += 1;
+                    if let Some((n, delay)) = restart_of(mods[*i]) {
+                        if seen[*i] == n && !was_down[*i] {
+                            was_down[*i] = true;
+                            down_until[*i] = Some(*t + delay);
+                        }
+                    }
+                }
+            }
             None => {
-                // a task exists only if stage 0 ran
-                if (mods[*i].stages % 3) as usize >= 1 {
+                // a task exists only if stage 0 ran, and it ends with the first incarnation
+                if (mods[*i].stages % 3) as usize >= 1 && !was_down[*i] {
                     wake_events += 1;
                     bracket(*i, *t, None, Some(("h-wake", *ord as i64)), &mut want, &mut want_sink, &mut consumed_early);
+                } else if (mods[*i].stages % 3) as usize >= 1 && down_until[*i].is_none() && !stale_done[*i] {
+                    stale_done[*i] = true;
+                    let from = want.len();
+                    bracket(*i, *t, None, None, &mut want, &mut want_sink, &mut consumed_early);
+                    optional.push((from, want.len()));
+                } else if (mods[*i].stages % 3) as usize >= 1 && was_down[*i] {
+                    // the pending timer fires while the module is down: nothing is delivered
+                    stale_done[*i] = true;
                 }
             }
         }
@@ -322,6 +406,24 @@ pub fn run_case(case: &Case) -> Result<(bool, Vec<&'static str>), Failure> {
         bracket(i, end_now, None, Some(("h-end", 0)), &mut want, &mut want_sink, &mut consumed_early);
     }
     let got: Vec<Rec> = log.iter().filter(|r| names.contains(&r.path)).cloned().collect();
+    // drop the optional groups that the log does not contain
+    {
+        let mut kept: Vec<Rec> = Vec::new();
+        let (mut gi, mut wi) = (0, 0);
+        while wi < want.len() {
+            if let Some((_, to)) = optional.iter().find(|(from, _)| *from == wi) {
+                let n = to - wi;
+                if got.len() < gi + n || got[gi..gi + n] != want[wi..*to] {
+                    wi = *to;
+                    continue;
+                }
+            }
+            kept.push(want[wi].clone());
+            wi += 1;
+            gi += 1;
+        }
+        want = kept;
+    }
     for (k, (gr, wr)) in got.iter().zip(want.iter()).enumerate() {
         vensure!(
             gr == wr,
@@ -390,6 +492,15 @@ pub fn run_case(case: &Case) -> Result<(bool, Vec<&'static str>), Failure> {
     if expect_err {
         labels.push("tear-down-ends-with-error");
     }
+    if was_down.iter().any(|d| *d) {
+        labels.push("shutdown-and-restart");
+    }
+    if restart_stage_events >= 2 {
+        labels.push("restart-replays->=2-stages");
+    }
+    if ignored_while_down > 0 {
+        labels.push("message-while-down");
+    }
     Ok((n_max >= 2 && consumed_early && wake_events > 0, labels))
 }
 
@@ -400,7 +511,8 @@ impl Prop for C14 {
     fn rule() -> String {
         "proptest: a global stack of 0..4 elements and 0..2 per-module elements (Module::stack) for 1..2 target modules, element kinds pass / rewrite \
          id / consume-if(id % m == r) / also-send / send-on-event-end; events: start-up stages (0..2 per module), injected messages at distinct \
-         instants, timer wake-ups of a task, tear-down (also ending in an error: at_sim_end returns Err, or a joined task is still pending); \
+         instants, timer wake-ups of a task, a shutdown requested by the handler with a restart that replays the start-up stages (messages \
+         that arrive while the module is down are dropped without any hook call), tear-down (also ending in an error: at_sim_end returns Err, or a joined task is still pending); \
          handlers optionally forward to a sink. Oracle: the complete hook/handler log of the target \
          modules must equal the log produced by an independent interpretation of the stack rules (event_start 0..n-1 each once, incoming in that \
          order until consumed, handler iff not consumed and with the rewritten id, event_end n-1..0 each once, module elements after the global \
@@ -437,8 +549,9 @@ impl Prop for C14 {
             any::<bool>(),
             proptest::bool::weighted(0.2),
             proptest::bool::weighted(0.2),
+            proptest::option::weighted(0.35, (0u8..4, 0u8..6)),
         )
-            .prop_map(|(own, stages, wakes, msgs, handler_sends, end_err, pending_join)| ModSpec {
+            .prop_map(|(own, stages, wakes, msgs, handler_sends, end_err, pending_join, restart)| ModSpec {
                 own,
                 stages,
                 wakes,
@@ -446,6 +559,7 @@ impl Prop for C14 {
                 handler_sends,
                 end_err,
                 pending_join,
+                restart,
             });
         (proptest::collection::vec(elem, 0..5), proptest::collection::vec(m, 1..3))
             .prop_map(|(global, mods)| Case { global, mods })
